@@ -94,3 +94,11 @@ U("c13_path_from_dir_base", ["C13"], "h_path", ["C13/path.c"], ["file.c"], plain
   min_obligations=10, timeout=300, cost=15, assumptions=[NOFAIL, "POSIX separator (the build's configuration)"])
 U("c13_path_from_dir_base_null", ["C13"], "h_path_null", ["C13/path.c"], ["file.c"], plain=True, lib=("lib/ds_sink.c", "lib/libc_models.c"), kind="finite",
   defines=["-DSINK_CAP=12"], cbmc_flags=["--unwind", "14", "--unwinding-assertions"], functions=["path_from_dir_base"], min_obligations=1, timeout=120, cost=2)
+
+# ---- the manifest query walks a copy: the engine's document is framed out
+U("c13_manifest_query_frame", ["C13", "C05"], "h_manifest_frame", ["C13/manifest_frame.c"], ["mmd.c", "d_string.c", "stack.c"], plain=True, lib=(), kind="bounded",
+  defines=["-DSN=4"], drop_bodies=[], cbmc_flags=["--unwind", "8", "--unwinding-assertions"], bounds={"source length<=": 4, "unwind": 8},
+  pre_instrument=["--remove-function-body-regex", "^(?!mmd_engine_transclusion_manifest$|d_string_.*$|stack_.*$|ensureStringBufferCanHold$|h_manifest_frame$|mmd_transclude_source$|verif_.*$|__CPROVER.*$).*"],
+  functions=["mmd_engine_transclusion_manifest", "d_string_new", "d_string_free", "stack_new", "stack_free"],
+  callees={"mmd_transclude_source": "by contract (enforced in c13_rec_*): may rewrite the DString it is given, pushes on the manifest it is given"},
+  min_obligations=10, timeout=300, cost=10, assumptions=[NOFAIL])
